@@ -339,11 +339,8 @@ def sorted_rule(ctx, res, insert_only=False):
                        x, rep, others, got[0], got[1], got[2]), sample={"remove": x, "before": [rep, list(others)], "after": allpos} if (rep, x) == (5, 5) and len(others) == 4 else None)
     res.count("index_bucket_cases", n)
     res.floor(rule, "index_bucket_cases", 40 if not insert_only else 28)
-    # the needle of the binary search is the inserted position
-    bs = [(bi, c, t) for bi, c, t in static.calls(P, ins) if c is not None and c["path"] == "core::slice::<impl [T]>::binary_search"]
-    if len(bs) == 1:
-        o = static.origin(ins, bs[0][2]["args"][1])
-        res.ob(o[0] == "param" and o[1] == 2, rule, rule + "/insert/needle", "Indexes::insert searches `other` for something else than the position being inserted (%r)" % (o,), sample={"binary_search_needle": "the inserted position"})
+    # (a former call-site rule on the needle of the binary search is gone: the cases above decide what Indexes::insert does,
+    # however it searches)
     # map-level removal erases the bucket when the last position goes
     if insert_only:
         return
